@@ -63,6 +63,7 @@ def _usable_subs(version, cref):
 class Gen:
     def __init__(self, seed, mix, init, twin=False):
         self.rng = K.derive_rng(seed, 'ops')
+        self.px_rng = K.derive_rng(seed, 'px')
         self.mix = MIX[mix]
         self.mixname = mix
         self.init = init
@@ -126,9 +127,16 @@ class Gen:
     def next_op(self, world, step):
         rng = self.rng
         if self.pending:
-            return self.pending.pop(0)
+            return self.spell_px(self.pending.pop(0))
         op = self.no_instances_under_profile(self._next_op(world, step))
-        return self.split_factory_add(world, op)
+        return self.spell_px(self.split_factory_add(world, op))
+
+    def spell_px(self, op):
+        # the first repetition of an existing child: through the proxy (s.pid_3.cx_1 = v) in a third of the
+        # writes, by index (s.pid_3[0].cx_1 = v) otherwise
+        if op is not None and op.get('k') in ('set', 'value', 'del') and op.get('p') and self.px_rng.random() < 0.35:
+            op['px'] = True
+        return op
 
     def no_instances_under_profile(self, op):
         if op is None or not self.init.get('profile'):
@@ -556,6 +564,28 @@ class Gen:
                         path.append(['sub', sidx, 0, self.sp()])
         if not path:
             return None
+        if rng.random() < 0.35 and not any(st[0] == 'grp' for st in path):
+            # read through a child that does not exist, then add that child by add_x(), then write through
+            # the same path: the write must land in the child just added (not in what the read left behind)
+            m = self.model(world)
+            mp = [(t, k_, r) for t, k_, r, _ in path]
+            kinds_ = [st[0] for st in path]
+            if m is not None and 'fld' in kinds_:
+                fpos = kinds_.index('fld')
+                segnode = EM.resolve(m, mp[:fpos])
+                fld_absent = segnode is not None and EM.resolve(m, mp[:fpos + 1]) is None
+                if fld_absent and len(path) > fpos + 1 and segnode.key != 'MSH':
+                    cstep = path[fpos + 1]
+                    comps = dict(_usable_comps(self.version, HN.field_ref(self.version, segnode.key, path[fpos][1])))
+                    if cstep[1] in comps:
+                        self.pending.append({'k': 'add', 'p': path[:fpos], 'c': ['fld', path[fpos][1], 0, 0], 'via': 'factory'})
+                        self.pending.append({'k': 'set', 'p': path[:fpos + 1], 'c': ['cmp', cstep[1], 0, self.sp()], 'via': 'attr', 'px': True,
+                                             'v': {'text': gen.component_text(rng, self.version, comps[cstep[1]][1], self.ec, self.tok, 0.4, 0.0)}})
+                elif segnode is None and fpos == 1 and self.kind == 'msg' and not path[0][1].startswith('Z'):
+                    fref = HN.field_ref(self.version, path[0][1], path[1][1])
+                    self.pending.append({'k': 'add', 'p': [], 'c': ['seg', path[0][1], 0, 0], 'via': 'factory', 'text': None})
+                    self.pending.append({'k': 'set', 'p': path[:1], 'c': ['fld', path[1][1], 0, self.sp()], 'via': 'attr', 'px': True,
+                                         'v': {'text': self.field_value(fref)}})
         return {'k': 'read', 'what': 'chain', 'p': path, 'index': rng.random() < 0.3,
                 'tail': rng.choice(['repr', 'len', 'iter', 'value', 'er7', 'in', 'repr']), 'times': rng.choice([1, 2, 3])}
 
